@@ -11,7 +11,8 @@
 (*   build1, build2 |-> names of the nodes of each program's result, for   *)
 (*              two independent builds of the same case                    *)
 (*   pre, uni |-> (union cases) the descriptions of the nodes of the       *)
-(*              united actions before the union, and of the union graph    *)
+(*              united actions before the union, and of the union graph;   *)
+(*              uninames: the name of every node OBJECT of that graph      *)
 (*   steps  |-> per executed operation [op, raised, before, after] where   *)
 (*              before/after are snapshots <<action, dims, coords, node    *)
 (*              identities, payloads of those nodes (callable identity,    *)
@@ -67,6 +68,14 @@ UPrograms(s) == UNION {{<<Op("map", f, "", "", 0)>>, <<Op("map", f, "", "", 0), 
                         <<Op("map", f, "", "", 0), Op("map", "par2", "", "", 0)>>} : f \in {"par1", "def1"}}
 UnionCases == UNION {{[kind |-> "names", start |-> s, p |-> p, q |-> q, union |-> u] :
                         p \in UPrograms(s), q \in UPrograms(s), u \in {"from_actions", "add", "iadd"}} : s \in {"Y", "A"}}
+\* (V) the same sub-expression twice inside ONE action -- a.map(f).add(a.map(f)) ("dup_add"); (a - mean(a)) / std(a) with batched
+\*     mean and std over E, which both build the batched sum ("norm") -- made into a Cascade from that single action ("single"),
+\*     or united with its source: in the Cascade's graph one name is one node
+DupCases == {[kind |-> "names", start |-> s, p |-> <<o>>, q |-> <<>>, union |-> u] :
+                s \in {"A", "E"}, o \in {Op("dup_add", f, "", "", 0) : f \in {"par1", "def1"}} \cup {Op("norm", "", "", "x", 2)},
+                u \in {"single", "from_actions", "add", "iadd"}}
+        \cup {[kind |-> "names", start |-> "E", p |-> <<Op("dup_add", "par1", "", "", 0), Op("norm", "", "", "x", 2)>>,
+               q |-> <<Op("norm", "", "", "x", 2)>>, union |-> u] : u \in {"single", "from_actions", "add"}}
 \* (S) two sources, created by one from_source call or by two
 SrcCallables == {"slam1", "slam2", "sdef1", "sdef2", "spar1", "spar2"}
 SourceCases == {[kind |-> "sources", start |-> "", p |-> <<Op("source", c1, "", IF one THEN "one_call" ELSE "two_calls", 0)>>,
@@ -108,12 +117,13 @@ Post(c, r) ==
   IN  {"NameInjective:" \o CollisionKind(x[1], x[2]) : x \in clashes}
  \cup (IF r.build1 = r.build2 THEN {} ELSE {"Deterministic"})
  \cup {"OperandsIntact:" \o r.steps[k].op : k \in {k \in DOMAIN r.steps : r.steps[k].before # r.steps[k].after}}
+ \cup (IF "union" \in DOMAIN c /\ Cardinality(SetOf(r.uninames)) # Len(r.uninames) THEN {"NameInjective:one_name_on_two_nodes_of_a_cascade"} ELSE {})
  \cup (IF "union" \in DOMAIN c /\ SetOf(r.uni) # SetOf(r.pre) THEN {"NameInjective:union_lost_or_rewired_a_computation"} ELSE {})
  \cup (IF c.kind # "operands" /\ \E k \in DOMAIN r.steps : r.steps[k].raised THEN {"raised"} ELSE {})
  \cup (IF c.kind # "operands" /\ Len(r.steps) # 2 * (Len(c.p) + Len(c.q)) THEN {"program_not_executed"} ELSE {})
 
 \* ======================================================================== the two TLC passes
-Generate == JsonSerialize(IOEnv.CASES_FILE, SetToSeq(NameCases) \o SetToSeq(PermCases) \o SetToSeq(SharedCases) \o SetToSeq(UnionCases) \o SetToSeq(SourceCases) \o SetToSeq(OperandCases) \o SetToSeq(TwiceCases) \o SetToSeq(SliceCases))
+Generate == JsonSerialize(IOEnv.CASES_FILE, SetToSeq(NameCases) \o SetToSeq(PermCases) \o SetToSeq(SharedCases) \o SetToSeq(UnionCases) \o SetToSeq(DupCases) \o SetToSeq(SourceCases) \o SetToSeq(OperandCases) \o SetToSeq(TwiceCases) \o SetToSeq(SliceCases))
 \* names are also compared ACROSS cases: G = every node description of the whole run, Amb = names with two computations
 Judge ==
   LET cs == JsonDeserialize(IOEnv.CASES_FILE)
